@@ -1,7 +1,8 @@
 #!/usr/bin/env python3
 """Re-run every stored behaviour-preserving rewrite (/verif/harmless/<name>/patch.diff) against /repo with the current checks:
 apply, run all quick checks, undo.  No check may alarm.  usage: refac_rerun.py [name-prefix ...]"""
-import json, os, subprocess, sys, time
+import json, os, tempfile, subprocess, sys, time
+os.environ.setdefault('VERIF_EVIDENCE_DIR', __import__('tempfile').mkdtemp(prefix='pcfgverif-ev-', dir='/dev/shm' if os.path.isdir('/dev/shm') else None))
 V = os.path.dirname(os.path.dirname(os.path.abspath(__file__)))
 R = os.environ.get('VERIF_REPO', '/repo')
 def sh(cmd, cwd=None, timeout=4000):
@@ -32,6 +33,7 @@ for name in names:
             res[pid] = {'exit': rc, 'violations': lines[:2], 'wall_s': round(time.time() - t, 1)}
     finally:
         sh(f'git -C {R} checkout -- .')
+        sh(f'/venv/bin/python {V}/harness/translate.py {R} {V}/lean/PcfgVerif/PcfgVerif/Generated')      # Generated/*.lean back to the tree as it is
         sh(f'git -C {R} clean -fdq -- lib_guesser lib_trainer lib_scorer lib_princeling')
     alarms = [p for p, r in res.items() if r['exit'] != 0]
     meta['current'] = {'results': res, 'alarms': alarms}
